@@ -46,8 +46,8 @@ def same(a, m):
     return jl.classify(ha).split(" ")[0] == jl.classify(hm).split(" ")[0]
 
 
-def simplifications(v, budget=[0]):
-    """one-step simplifications of a value, smaller first"""
+def local_simpl(v):
+    """simplifications of the node v itself (not of its descendants), smaller first"""
     out = []
     if v is None: return out
     out.append(None)
@@ -57,26 +57,35 @@ def simplifications(v, budget=[0]):
         if v not in (0, 1): out.append(1)
         return out
     if isinstance(v, str):
-        if v: out += ["", v[:len(v) // 2], v[1:], v[:-1]]
+        if v:
+            out += ["", v[:len(v) // 2], v[len(v) // 2:], v[1:], v[:-1]]
         return out
     if isinstance(v, list):
-        for i, x in enumerate(v):
-            out.append(x)
-        for i in range(len(v)):
-            out.append(v[:i] + v[i + 1:])
-        for i, x in enumerate(v):
-            for s in simplifications(x)[:6]:
-                out.append(v[:i] + [s] + v[i + 1:])
+        for x in v: out.append(x)                       # hoist an element
+        if v: out.append([])
+        for i in range(len(v)): out.append(v[:i] + v[i + 1:])
         return out
     if isinstance(v, dict):
         for k, x in v.items():
-            out.append(x)
-        for k in v:
-            out.append({kk: xx for kk, xx in v.items() if kk != k})
-        for k, x in v.items():
-            for s in simplifications(x)[:8]:
-                d = dict(v); d[k] = s; out.append(d)
+            out.append(x)                               # hoist a member
+            if isinstance(x, list):
+                for y in x: out.append(y)               # hoist an operand of a single-key operation
+        for k in v: out.append({kk: xx for kk, xx in v.items() if kk != k})
         return out
+    return out
+
+
+def simplifications(v):
+    """every value obtained from v by ONE local simplification at ONE position (any depth)"""
+    out = list(local_simpl(v))
+    if isinstance(v, list):
+        for i, x in enumerate(v):
+            for s in simplifications(x):
+                out.append(v[:i] + [s] + v[i + 1:])
+    elif isinstance(v, dict):
+        for k, x in v.items():
+            for s in simplifications(x):
+                d = dict(v); d[k] = s; out.append(d)
     return out
 
 
@@ -101,7 +110,7 @@ class Runner:
         rm = self.model(lines)
         return [(l, a, m) for l, a, m in zip(lines, ri, rm) if not same(a, m)], ri, rm
 
-    def shrink(self, line, profile=None, rounds=40):
+    def shrink(self, line, profile=None, rounds=120):
         """greedy structural shrinking, re-querying both sides"""
         try:
             cmd, args = split_case(line)
@@ -121,7 +130,7 @@ class Runner:
                         cands.append((len(l), l, c))
             if not cands: break
             cands.sort(key=lambda t: t[0])
-            cands = cands[:400]
+            cands = cands[:1500]
             lines = [c[1] for c in cands]
             ri = self.impl(lines, profile, per_case_timeout=20); rm = self.model(lines)
             nxt = None
